@@ -63,6 +63,11 @@ def run(ctx):
                 ctx.note("seeded change %s no longer applies to the current tree (skipped): %s" % (i, msg.strip()[:120]))
                 continue
             rc, rules, tail = _run_check(prop, dst)
+            if rc == 2:
+                rc, rules, tail = _run_check(prop, dst)
+            if rc == 2:
+                ctx.note("seeded change %s: the patched scratch copy could not be analysed (engine/build error, not a verdict): %s" % (i, tail[-160:]))
+                continue
             expect = m.get("detected_by", {}).get(prop)
             if expect is None and not m.get("detected", True):
                 ctx.ok(R, "%s (recorded as not decided by static rules)" % i, "check exit %d, rules %s" % (rc, rules))
@@ -82,6 +87,11 @@ def run(ctx):
                     ctx.note("benign patch %s no longer applies to the current tree (skipped)" % pf)
                     continue
                 rc, rules, tail = _run_check(prop, dst)
+                if rc == 2:
+                    rc, rules, tail = _run_check(prop, dst)
+                if rc == 2:
+                    ctx.note("benign patch %s: the patched scratch copy could not be analysed (engine/build error, not a verdict)" % pf)
+                    continue
                 ctx.check(rc == 0, "BENIGN", pf, "check stays silent", "the check raises an alarm on the behaviour-preserving edits of %s: %s" % (pf, tail[-300:]), key="BENIGN|%s" % pf)
             finally:
                 shutil.rmtree(d, ignore_errors=True)
